@@ -18,11 +18,31 @@ Proved for an arbitrary comparison (so in particular for the model's):
 * `C14_order_independent`: if moreover different siblings never tie, the result does not depend on the
   previous order (with ties only the tied siblings may keep their relative order: stability);
 * the index-path part of the key is a total order (`C14_index_key_total`).
-Assumption (named, compared in the run): `cmpElem` is a total preorder. It was not before the repair of
-finding #6 (cyclic comparison of `a2 < a10 < a1b < a2`); the unit `element_order` and the sort scenario compare
-all permutations of small sibling sets on the real library.
+ON TREES (`Lemmas/SortTree.lean`, `Lemmas/SortIndex.lean`; `sortNode` / `opSort` are what the driver runs for `sort` requests, as
+the operation `.sort` of the larger alphabet `OpX`), for every specification, every tree, every depth:
+* `C14_tree_keeps_every_element`: the headers of the sorted tree (id, name, type, attributes, comment, file set, parent field) are
+  a permutation of the headers before — nothing lost, duplicated or altered; `C14_tree_keeps_every_value` (under `NoStrayText`: no
+  text item in SEQUENCE/CHOICE/BAG content, which the serializer would not write either — `C14_stray_text_is_dropped` shows the
+  hypothesis is needed): every element keeps the multiset of its text values, the trees keep their size;
+* `C14_only_permitted_reordering`: content of an `ordered` element, character or mixed content keeps its order;
+* `C14_never_fails`, `C14_tree_stays_wellformed`;
+* `C14_lookups_intact`: in a world with exact index / referrer lists (C04/C05) in which every child is known to its parent's type,
+  every path lookup and referrer list answers as before AND is still exact for the sorted tree — the crux is that a SHORT-NAME
+  stays the first content item (`C14_short_name_stays_first_needs_known_children`: without the hypothesis a child unknown to the
+  all-version lookup is sorted in front of the SHORT-NAME and the element loses its name; the hypothesis `WKidsKnown` is an
+  invariant of every guarded history, `C14_lookups_intact_in_every_reachable_state`);
+* `C14_tree_idempotent`: sorting a subtree twice = once, for every fuel, if the sibling comparison `childLe` is a total preorder ON
+  the class of elements that occur (classes closed under sorting of contents, `SibClosed`); `C14_result_is_sorted`.
+The comparison itself: `C14_float_order_total` — the float comparison of the REPAIRED library (`f64::total_cmp`) is a linear order
+on bit patterns; `C14_old_float_order_not_transitive` is the negation witness of the repaired defect c14:nan-float-order-dependent
+(NaN was equal to every number: 2 ≤ NaN ≤ 1 but not 2 ≤ 1), found by this proof, reproduced on the library, repaired (fix:
+e83012f).  REMAINING assumption (named): `childLe` is a total preorder on the elements of the tree; it is NOT in one more family
+(known finding c14: an element with and one without a DEFINITION-REF text), which the run tolerates narrowly.
 -/
 import AutosarVerif.Lemmas.Sort
+import AutosarVerif.Lemmas.SortTree
+import AutosarVerif.Lemmas.SortIndex
+import AutosarVerif.Lemmas.KidsKnownReach
 
 namespace AV.C14
 open AV.W
@@ -45,6 +65,83 @@ theorem C14_index_key_total (a b : List Nat) : cmpIdx a b ≠ .gt ∨ cmpIdx b a
 
 theorem C14_children_permuted (S : Spec) (V : Env) (typ fuel : Nat) (kids : List (Hdr × Items)) :
     (kids.mergeSort (childLe S V typ fuel)).Perm kids := sortNode_children_perm S V typ fuel kids
+
+/-! ### on trees -/
+
+theorem C14_tree_keeps_every_element (S : Spec) (V : Env) (fuel : Nat) (h : Hdr) (kids : Items) :
+    (sortNode S V fuel h kids).hdrs.Perm kids.hdrs ∧ (sortNode S V fuel h kids).ids.Perm kids.ids :=
+  ⟨sortNode_hdrs_perm S V fuel h kids, sortNode_ids_perm S V fuel h kids⟩
+
+theorem C14_tree_keeps_every_value (S : Spec) (V : Env) (fuel : Nat) (h : Hdr) (kids : Items) (hn : NoStrayText S h kids) (p : Nat) :
+    ((sortNode S V fuel h kids).ptexts p).Perm (kids.ptexts p) ∧ (sortNode S V fuel h kids).texts = kids.texts ∧
+      (sortNode S V fuel h kids).size = kids.size :=
+  ⟨sortNode_ptexts_perm S V fuel h kids hn p, sortNode_texts S V fuel h kids hn, sortNode_size S V fuel h kids hn⟩
+
+/-- the hypothesis is needed: a text item in the content of an unordered SEQUENCE/CHOICE/BAG element is dropped by `sort` -/
+theorem C14_stray_text_is_dropped (S : Spec) (V : Env) (fuel : Nat) (h : Hdr) (c : CDv) (h1 h2 : Hdr) (k1 k2 : Items)
+    (htm : textMode S h = false) (hord : S.defOrdered h.ety.defId = false) :
+    (sortNode S V (fuel + 1) h (.text c (.elem h1 k1 (.elem h2 k2 .nil)))).length = 2 ∧
+    (sortNode S V (fuel + 1) h (.text c (.elem h1 k1 (.elem h2 k2 .nil)))).texts = [] :=
+  sortNode_drops_stray_text S V fuel h c h1 h2 k1 k2 htm hord
+
+theorem C14_only_permitted_reordering (S : Spec) (V : Env) (fuel : Nat) (h : Hdr) (kids : Items)
+    (ho : S.defOrdered h.ety.defId = true ∨ S.mode h.ety.typ = .characters ∨ S.mode h.ety.typ = .mixed ∨ kids.length ≤ 1) :
+    (sortNode S V fuel h kids).childElems.map (·.1) = kids.childElems.map (·.1) := sortNode_keeps_order S V fuel h kids ho
+
+theorem C14_never_fails (S : Spec) (V : Env) (w : World) (x : Nat) : (opSort S V w x).2 = .ok "" := opSort_ok S V w x
+theorem C14_tree_stays_wellformed (S : Spec) (V : Env) (w : World) (x : Nat) (hw : w.wf) : (opSort S V w x).1.wf :=
+  opSort_wf S V w x hw
+
+/-- every element of every model is kept by the `sort` request (headers and ids are permuted) -/
+theorem C14_request_keeps_every_element (S : Spec) (V : Env) (w : World) (x j : Nat) (m : Model) (hj : w.models[j]? = some m) :
+    ∃ m', (opSort S V w x).1.models[j]? = some m' ∧ m'.rootItems.hdrs.Perm m.rootItems.hdrs ∧ m'.rootItems.ids.Perm m.rootItems.ids :=
+  opSort_hdrs_perm S V w x j m hj
+
+/-- path lookups and referrer lists answer as before and are exact for the sorted tree -/
+theorem C14_lookups_intact (S : Spec) (V : Env) (vOk : Nat) (hH : IdxHyp S V vOk) (w : World) (x : Nat) (h : CInv S vOk w)
+    (hK : WKidsKnown S w) (j : Nat) (m m' : Model) (hm : w.models[j]? = some m) (hm' : (opSort S V w x).1.models[j]? = some m') :
+    (∀ p, m'.lookup p = m.lookup p ∧ refsGet m'.refs p = refsGet m.refs p) ∧
+    (∀ q i, m'.lookup q = some i ↔ (q, i) ∈ entries S m'.rootItems []) ∧
+    (∀ p id, (refsGet m'.refs p).count id = (refEntries S m'.rootItems).count (p, id)) :=
+  opSort_lookups S V vOk hH w x h (wsibsKnown_of_wkidsKnown S w hK) j m m' hm hm'
+
+/-- … in every state reachable by a guarded history of the core operations (the hypotheses of `C14_lookups_intact` are invariants) -/
+theorem C14_lookups_intact_in_every_reachable_state (S : Spec) (V : Env) (vOk : Nat) (rootAttrs : List (Nat × CDv))
+    (hH : IdxHyp S V vOk) (hR : RefWF S) (hv32 : vOk &&& 0xFFFFFFFF = vOk) (ops : List Op) (hops : ∀ op ∈ ops, OpOk S vOk op)
+    (x : Nat) : CInv S vOk (opSort S V (run S V rootAttrs ops) x).1 ∧ WKidsKnown S (opSort S V (run S V rootAttrs ops) x).1 :=
+  run_opSort_cinv S V vOk rootAttrs hH hR hv32 ops hops x
+
+/-- negation witness: without "every child is known to its parent's type" the SHORT-NAME does not stay in front -/
+theorem C14_short_name_stays_first_needs_known_children :
+    ¬ ∀ (S : Spec) (V : Env) (_ : NameWF S) (fuel : Nat) (h : Hdr) (k : Items), kidsOk S h k → SnOk S k →
+      itemName S h (sortNode S V fuel h k) = itemName S h k := itemName_sortNode_needs_sibsKnown
+
+/-- sorting a subtree twice = once (any fuel), for a comparison that is a total preorder on a class of elements closed under
+sorting of contents -/
+theorem C14_tree_idempotent (S : Spec) (V : Env) (Q : Hdr × Items → Prop) (hQ : SibClosed Q)
+    (hle : ∀ typ n, TotalPreOn Q (childLe S V typ n)) (fuel : Nat) (h : Hdr) (kids : Items) (hn : NoStrayText S h kids)
+    (hall : ∀ h' k', Occ h' k' kids → Q (h', k')) :
+    sortNode S V fuel h (sortNode S V fuel h kids) = sortNode S V fuel h kids :=
+  sortNode_idem' S V Q hQ hle fuel h kids hn hall
+theorem C14_request_idempotent (S : Spec) (V : Env) (Q : Hdr × Items → Prop) (hQ : SibClosed Q)
+    (hle : ∀ typ n, TotalPreOn Q (childLe S V typ n)) (w : World) (x : Nat) (hn : World.noStray S w)
+    (hall : ∀ m ∈ w.models, ∀ h k, Occ h k m.rootItems → Q (h, k)) :
+    (opSort S V (opSort S V w x).1 x).1 = (opSort S V w x).1 := opSort_idem' S V Q hQ hle w x hn hall
+
+theorem C14_result_is_sorted (S : Spec) (V : Env) (fuel : Nat) (h : Hdr) (kids : Items) (htm : textMode S h = false)
+    (hord : S.defOrdered h.ety.defId = false)
+    (hpre : TotalPreOn (· ∈ kids.childElems.map fun c => (c.1, sortNode S V fuel c.1 c.2)) (childLe S V h.ety.typ (kids.size + 2))) :
+    (sortNode S V (fuel + 1) h kids).childElems.Pairwise (fun a b => childLe S V h.ety.typ (kids.size + 2) a b = true) :=
+  sortNode_sorted S V fuel h kids htm hord hpre
+
+/-- the repaired float comparison (`f64::total_cmp`) is a linear order on bit patterns -/
+theorem C14_float_order_total (a b c : Nat) :
+    (cmpF64 a b ≠ .gt → cmpF64 b c ≠ .gt → cmpF64 a c ≠ .gt) ∧ (cmpF64 a b ≠ .gt ∨ cmpF64 b a ≠ .gt) ∧ (cmpF64 a b = .eq ↔ a = b) :=
+  ⟨cmpF64_le_trans a b c, cmpF64_le_total a b, cmpF64_eq_iff a b⟩
+/-- negation witness of the repaired defect: the comparison before the repair, `2.0 ≤ NaN ≤ 1.0` but not `2.0 ≤ 1.0` -/
+theorem C14_old_float_order_not_transitive :
+    cmpF64Old SortTree.twoBits SortTree.nanBits ≠ .gt ∧ cmpF64Old SortTree.nanBits SortTree.oneBits ≠ .gt ∧
+      cmpF64Old SortTree.twoBits SortTree.oneBits = .gt := cmpF64Old_not_transitive
 
 /-! non-vacuity: names with numeric suffixes decompose as the code does, and order naturally -/
 example : decompose [97, 49, 48] = ([97], some 10) := by decide            -- "a10" = ("a", 10)
